@@ -209,12 +209,25 @@ def check_unit_series(sd):
     except Exception:       # a unit the registry does not define: nothing to check
         return []
     em = RAMEmitter({})
+    big = random.Random(str(sd) + '-big')
+    emitted = {}
     for i in range(rng.choice([1, 2, 3, 4])):
         vals = {n: (rng.choice([0, 1.5, 2, 90, 25.0]) * qs[n] if qs[n] is not None else rng.choice([0, 1.5, 'x'])) for n in names}
+        if big.random() < 0.3 and qs[names[0]] is not None:
+            # molecule counts: exact integers beyond 2**53 stay exact (and stay integers) in every view
+            vals[names[0]] = big.choice([2 ** 53 + 1, 2 ** 53 + 3, 10 ** 18 + 7, 7]) * qs[names[0]]
         cell = {'inner': vals} if nest else vals
+        emitted[float(i)] = {'cell': copy.deepcopy(cell)}
         em.emit({'table': 'history', 'data': {'time': float(i), 'cell': cell}})
     fails = []
     raw = em.get_data_deserialized()
+    for t, row in emitted.items():
+        for path, v in leaves(row):
+            got = get(raw.get(t, {}), path)
+            if isinstance(v, Quantity) and (not isinstance(got, Quantity) or got.units != v.units or got.magnitude != v.magnitude):
+                fails.append('get_data_deserialized()[%s]%s is %r, emitted %r' % (t, path, got, v))
+    if fails:
+        return fails[:3]
     times = list(raw)
     for label, emb, pth in (('emitter', em.get_timeseries(), em.get_path_timeseries()),
                             ('from_data', timeseries_from_data(copy.deepcopy(raw)), path_timeseries_from_data(copy.deepcopy(raw)))):
